@@ -46,6 +46,11 @@ const (
 // Some strings do not require any quoting and are returned unchanged.
 // Those strings can be directly surrounded in single quotes as well.
 func Quote(s string, lang LangVariant) (string, error) {
+	if lang == langBashLegacy {
+		// The zero value is documented as LangBash; without this,
+		// lang.in below would report true for every language set.
+		lang = LangBash
+	}
 	if s == "" {
 		// Special case; an empty string must always be quoted,
 		// as otherwise it expands to zero fields.
